@@ -111,6 +111,7 @@ class Context:
 def minimise(zy: ZygoteSet, seed_: int, run: int, violation: dict, options: dict):
     sig = violation["sig"]
     workload = copy.deepcopy(violation["workload"])
+    original = copy.deepcopy(violation["workload"])
 
     def fails(w) -> bool:
         try:
@@ -138,6 +139,10 @@ def minimise(zy: ZygoteSet, seed_: int, run: int, violation: dict, options: dict
         shrunk = True
     out = execute(zy, workload)
     match = [v for v in out["violations"] if v["sig"] == sig]
+    if not match and shrunk:
+        workload, shrunk = original, False  # fragile violation: fall back to the run as generated
+        out = execute(zy, workload)
+        match = [v for v in out["violations"] if v["sig"] == sig]
     if not match:
         return None
     payload = {"workload": workload, "violation": match[0], "shrunk": shrunk,
